@@ -8,7 +8,7 @@ TRUST = "trusted: go/types+go/ssa (x/tools v0.29.0), the engine's instruction se
 claimed = {
  "C01": dict(
    text="for each of the 32 operations the real method, sendto/broadcast, codec.Marshal (reflection walk), every MarshalUT0311L0x and bcd.Encode are executed symbolically with all arguments symbolic over their whole domain; the 64 request bytes recorded at the transport seam are asserted equal to an independent protocol table; unsat = holds for every argument tuple in the stated domain",
-   note="bounds: years 1..9999, HH:mm 00:00..24:00, PIN 0..999999, map keys 1..5 / the seven weekdays with symbolic presence and nil-ness, passcode lists of length 0,1,3,4,6; zone = any fixed offset (Z1); history half (independence of earlier calls) argued from single-call exactness, not yet solved as two-call harnesses. " + TRUST,
+   note="bounds: years 1..9999, HH:mm 00:00..24:00, PIN 0..999999, map keys 1..5 / the seven weekdays with symbolic presence and nil-ness, passcode lists of length 0,1,3,4,6; zone = any fixed offset (Z1); history half: every operation after an earlier unrelated call with its own symbolic arguments on the same or another client (6 operations quick, all 36 thorough), and with a configured controller whose transport fails (exactly one request, no retry on another route). " + TRUST,
    ref="DESIGN.md section 6 C01"),
  "C02": dict(
    text="for each of the 30 reply-bearing operations the whole 64-byte reply is symbolic (2^512 contents, header fixed so that it is accepted); sendto, codec.UnmarshalAs (reflection walk), every UnmarshalUT0311L0x, bcd.Decode and the result mapping / sentinel logic are executed symbolically and every result field is asserted equal to an independent protocol-table decoding; out-of-domain wire values must fail the call or come back as the zero value",
@@ -19,7 +19,7 @@ claimed = {
    note="bounds: k <= 2 datagrams quick, <= 4 thorough (longer sequences argued from the loop being memoryless); representative operations GetCards, OpenDoor, GetStatus at the seam with content checks, all 30 reply-bearing operations with the accept/reject half (one datagram, broadcast and directed routes); socket level: GetCards through the real ut0311.SendUDP / SendTCP / BroadcastTo over the socket script (datagrams / TCP chunks of length 0..96, k <= 2, 3 thorough), replayed natively against a loopback peer. " + TRUST,
    ref="DESIGN.md section 6 C03"),
  "C04": dict(
-   text="every runtime panic of the interpreted code (index and slice bounds, nil dereference, nil-map write, failed type assertion, division by zero, explicit panic, reflect misuse) is a solver obligation in the engine; the harnesses drive the 30 reply-bearing operations with an arbitrary reply of symbolic length 0..2048 on four routes (broadcast filter, UDP, TCP nil reply, transport error), then render the result with String() and JSON; plus the codec and dispatcher entry points, discovery and the listener's datagram handler on arbitrary byte strings, and arbitrary argument values",
+   text="every runtime panic of the interpreted code (index and slice bounds, nil dereference, nil-map write, failed type assertion, division by zero, explicit panic, reflect misuse) is a solver obligation in the engine; the harnesses drive the 30 reply-bearing operations with an arbitrary reply of symbolic length 0..2048 on four routes (broadcast filter, UDP, TCP nil reply, transport error), then render the result with String() and JSON; plus the codec and dispatcher entry points, discovery and the listener's datagram handler on arbitrary byte strings, arbitrary argument values (passcode lists up to 6), and a shutdown of the real socket-level Listen while one event is still being delivered to a slow callback and a second one waits at the pipe (timer-driven schedule; a send on the closed pipe would be a panic in a library goroutine)",
    note="rendering uses opaque text for numbers (only panics are checked); marshal/String methods of standard-library types (net.IP, netip.AddrPort) are trusted; fmt recovers panics in String methods it calls, so every returned value's String() and those of its exported fields are called directly; years outside 0..9999 are outside the time model. " + TRUST,
    ref="DESIGN.md section 6 C04"),
  "C05": dict(
@@ -35,12 +35,12 @@ claimed = {
    note="bounds: format lists of length 0..2 (3 thorough) over all 256 CardFormat values; HH:mm fields -9..99; net.IP length 0..16; IPv6 zones not modelled. " + TRUST,
    ref="DESIGN.md section 6 C07"),
  "C09": dict(
-   text="the real ut0311.SendUDP, SendTCP, BroadcastTo and Broadcast are executed symbolically over a socket script and a deterministic clock (time advances only by waiting: reads, TCP connects, sleeps; every goroutine has its own clock, synchronised at wake-ups): k datagrams of symbolic length and content arrive at symbolic instants; asserted: the call returns within timeout + slack measured on the clock, a (first acceptable) reply arriving before the deadline is the result however many stray datagrams precede it, no reply before the deadline is an error, every socket opened is closed and every goroutine started has ended at return, exactly one request is written and only to the addressed endpoint, and - with open/write/connect free to fail - a failure is an error with nothing left open; a read with no deadline and nothing to receive is reported as a deadlock. Counterexamples and, on every run, solver-chosen passing scenarios are replayed natively against a loopback peer that plays the same script with real sockets",
+   text="the real ut0311.SendUDP, SendTCP, BroadcastTo and Broadcast are executed symbolically over a socket script and a deterministic clock (time advances only by waiting: reads, TCP connects, sleeps; every goroutine has its own clock, synchronised at wake-ups): k datagrams of symbolic length and content arrive at symbolic instants; asserted: the call returns within timeout + slack measured on the clock, a (first acceptable) reply arriving before the deadline is the result however many stray datagrams precede it, no reply before the deadline is an error, every socket opened is closed and every goroutine started has ended at return, exactly one request is written and only to the addressed endpoint, and - with open/write/connect free to fail (including a bind address that is in use and a refused connect), and with a TCP connect that takes a symbolic time up to beyond the timeout - a failure is an error with nothing left open and the bind-port lock released; a read with no deadline and nothing to receive is reported as a deadlock. Counterexamples and, on every run, solver-chosen passing scenarios are replayed natively against a loopback peer that plays the same script with real sockets",
    note="reduced form (DESIGN 6 C09): timeout fixed at 600 ms, arrival instants kept 150 ms clear of the deadline and at most 3 timeouts out (so that the native replay is robust), returns-in-time allows 400 ms slack; k <= 2 datagrams quick (3 thorough) of length 0..96; one canonical goroutine schedule; calls queued behind the fixed-bind-port lock, kernel behaviour (ICMP refused, RST) and process-wide descriptor / goroutine counts over long call sequences are outside. " + TRUST,
    ref="DESIGN.md section 6 C09"),
  "C10": dict(
-   text="the real Listen / listen / datagram handler / dispatch goroutine are executed symbolically against a transport that feeds k datagrams of symbolic length 0..2048 and content from a goroutine through one reused receive buffer; goroutines run as coroutines under one canonical run-to-block schedule (unbuffered rendezvous, single consumer); asserted: connected callback once, exactly one callback per datagram in arrival order, an event callback iff the datagram is a well-formed event (64 bytes, 0x17/0x19, function 0x20, serial != 0, fields in domain) with every status field equal to an independent protocol-table decoding, delivered statuses distinct and unchanged by later datagrams, Listen returns nil, no goroutine left, no deadlock",
-   note="bounds: k <= 2 datagrams quick, 3 thorough; ONE schedule (run-to-block), not all interleavings - delivery order is schedule-independent by construction (argued, not explored); a datagram whose event timestamp is decimal but not a calendar date-time may be delivered with the zero timestamp or rejected (the codec's documented leniency); re-binding the listen address, the closed-flag race in ut0311.Listen and multi-sender arrival order are outside (OS / schedules); seam level (k <= 2 / 3) plus socket level: the real ut0311.Listen receive loop (one reused buffer, truncation of oversize datagrams by the receive buffer, shutdown goroutine) over the socket script with datagrams of length 0..96, replayed natively against a loopback peer. " + TRUST,
+   text="the real Listen / listen / datagram handler / dispatch goroutine are executed symbolically against a transport that feeds k datagrams of symbolic length 0..2048 and content from a goroutine through one reused receive buffer; goroutines run as coroutines under a canonical run-to-block schedule (unbuffered rendezvous, single consumer), plus a lazy-start schedule for a burst of datagrams read back to back and a timer-driven schedule for quitting while an event is in flight; asserted: connected callback once, exactly one callback per datagram in arrival order, an event callback iff the datagram is a well-formed event (64 bytes, 0x17/0x19, function 0x20, serial != 0, fields in domain) with every status field equal to an independent protocol-table decoding, delivered statuses distinct and unchanged by later datagrams, Listen returns nil, no goroutine left, no deadlock",
+   note="bounds: k <= 2 datagrams quick, 3 thorough; three canonical schedules (run-to-block; lazy start; sleepers woken in time order), not all interleavings; a datagram whose event timestamp is decimal but not a calendar date-time may be delivered with the zero timestamp or rejected (the codec's documented leniency); error callbacks are not ordered against event callbacks (they come from different goroutines; the property orders events only); re-binding the listen address, the closed-flag race in ut0311.Listen and multi-sender arrival order are outside (OS / schedules); seam level (k <= 2 / 3) plus socket level: the real ut0311.Listen receive loop (one reused buffer, truncation of oversize datagrams by the receive buffer, shutdown goroutine) over the socket script with datagrams of length 0..96, replayed natively against a loopback peer. " + TRUST,
    ref="DESIGN.md section 6 C10"),
  "C11": dict(
    text="GetDevices executed on k datagrams of symbolic length 0..2048 and content with a symbolic device table and broadcast port: the result is asserted to be, in arrival order, exactly one entry per well-formed get-device reply (each field from its protocol offset, address completed by the broadcast port, name from the table), nothing for the others, never an error",
@@ -52,11 +52,11 @@ claimed = {
    ref="DESIGN.md section 6 C12"),
  "C13": dict(
    text="ToDate, ParseDate, Date wire and JSON decoding, SystemDate and DateTime wire decoding and the encoders back are executed symbolically with the process zone a symbolic two-interval zone (offsets o1, o2 in +-14 h, transition anywhere within -14 h..+38 h of the date's 00:00 UTC), civil->instant resolution by Go's own time.Date algorithm transcribed into the model, all valid dates symbolic: the value must report and re-encode exactly the given year, month and day (date-times: exactly the transmitted fields whenever that civil time exists); a counterexample in the synthetic zone triggers a second run constrained to the real transitions of the installed tzdata and is replayed natively in that IANA zone before it is reported",
-   note="bounds: years 1..9999; zones with one transition near the date (transitions >= 48 h apart), jumps < 24 h (a zone that skips a whole calendar day is exempt by the property); the tzdata table keeps the earliest and latest occurrence of each (o1, o2, tau) transition shape 1800..2040; DateTime harness uses the contract of bcd.Decode proved by C12 instead of its body (compositional); the status system date/time recombination under Z2 is not yet covered. " + TRUST,
+   note="bounds: years 1..9999; zones with one transition near the date (transitions >= 48 h apart), jumps < 24 h (a zone that skips a whole calendar day is exempt by the property); the tzdata table keeps the earliest and latest occurrence of each (o1, o2, tau) transition shape 1800..2040; DateTime harness uses the contract of bcd.Decode proved by C12 instead of its body (compositional); the status system date/time recombination is covered under Z2 for GetStatus and for events delivered by Listen (harness/uhppote/c13_status.go). " + TRUST,
    ref="DESIGN.md section 6 C13"),
  "C14": dict(
-   text="for each scalar public type the encoder and the decoder are executed symbolically and composed: Date (JSON and String/ParseDate), DateTime JSON (zone abbreviation of a symbolic fixed-offset zone), HH:mm (String/HHmmFromString/JSON), SystemTime (TimeFromString/String), PIN JSON, door control state JSON, task type by name and by number (JSON and TSV), card format, the four address types (JSON, on the enumerated IPv4[:port] shapes of C15) and Weekdays JSON (all 128 day sets, decoded into an empty map and into a fresh nil map): decode(encode(v)) == v for every in-domain v, and every text of symbolic bytes up to a bounded length that is outside the domain is rejected while every text inside it yields exactly its value; for Card, Task, TimeProfile and Segments encoding/json's reflection is replaced by a havoc stub (any value of the static type, or an error) so that their hand-written decoders are explored for panics on a zero receiver",
-   note="bounds: reject-side text length <= 11 (date), 6 (HH:mm), 9 (time of day), 8 (PIN), 17 (control state), 3 digits (task numbers); JSON strings restricted to printable ASCII without escapes (the encoders' own output is asserted to be in that class); zone = any fixed offset; outside the claim: the exact round trip of Card/Task/TimeProfile/Segments (struct and map JSON inside encoding/json), Version (Sscanf), MAC (net.ParseMAC), free-text task names other than the 13 canonical ones. " + TRUST,
+   text="for each scalar public type the encoder and the decoder are executed symbolically and composed: Date (JSON and String/ParseDate), DateTime JSON (zone abbreviation; fixed-offset zone and a day with a zone transition), HH:mm (String/HHmmFromString/JSON), SystemTime (TimeFromString/String), PIN JSON, door control state JSON, task type by name and by number (JSON and TSV), card format, the four address types (JSON, on the enumerated IPv4[:port] shapes of C15) and Weekdays JSON (all 128 day sets, decoded into an empty map and into a fresh nil map): decode(encode(v)) == v for every in-domain v, and every text of symbolic bytes up to a bounded length that is outside the domain is rejected while every text inside it yields exactly its value; composite types (Segments, Card, Task, TimeProfile): json.Marshal builds an abstract document (objects by tag name with omitempty, arrays, numbers, exact text for every leaf produced by the repository's MarshalJSON methods) and json.Unmarshal walks the target type calling the repository's UnmarshalJSON methods, so the shadow structs, defaults, map filling and nil checks the repository writes around encoding/json are executed as they are: decode(encode(v)) == v into a fresh zero value (nil maps), also for two values decoded one after the other",
+   note="bounds: reject-side text length <= 11 (date), 6 (HH:mm), 9 (time of day), 8 (PIN), 17 (control state), 3 digits (task numbers); JSON strings restricted to printable ASCII without escapes (the encoders' own output is asserted to be in that class); zone = any fixed offset (Date, DateTime) or a two-interval zone refined against tzdata (DateTime on transition days); composites: segments 1..k (k = 0..3), four doors, PIN <= 999999, all 13 task types, three weekday sets; outside the claim: the text syntax of composite documents (encoding/json's), the reject side of composite types (documents not produced by json.Marshal are a havoc stub: any value of the static type, or an error - explored for panics only), Version (Sscanf), MAC (net.ParseMAC), free-text task names other than the 13 canonical ones. " + TRUST,
    ref="DESIGN.md section 6 C14"),
  "C15": dict(
    text="the four address parsers, String and the format/parse round trip are executed symbolically (the repo's regular expressions are taken from the call sites and simulated as NFAs over symbolic bytes; netip's parsers and formatters are interpreted from their SSA) on strings assembled from an enumerated shape (digit counts of the four octets and the port) with symbolic digit characters: accepted iff the role's port rule holds, with exactly the octets and port of the text or the role's default; every string of symbolic bytes that contains no dotted quad is rejected by all four roles",
@@ -64,15 +64,15 @@ claimed = {
    ref="DESIGN.md section 6 C15"),
  "C16": dict(
    text="Date and HHmm Before/After/Equals executed symbolically on pairs and triples: trichotomy, mirror image, transitivity, irreflexivity and agreement with lexicographic (y,m,d)/(h,m) order are assertions decided by the solver over all valid dates 0001..9999 (any fixed zone offset) and all int-valued HH:mm fields",
-   note="DateTime.Before is covered under a symbolic fixed-offset zone (civil seconds, sub-second parts ignored) and across a zone transition (two instants on the transition day under zone view Z2, real-zone twin), with Time.UnixMilli modelled as order-constrained epoch seconds (years from 1970); the SetTimeProfile segment check is covered by C07's SetTimeProfile harness. " + TRUST,
+   note="DateTime.Before is covered under a symbolic fixed-offset zone (civil seconds, sub-second parts ignored) and across a zone transition (two instants on the transition day under zone view Z2, real-zone twin), with Time.UnixMilli modelled as order-constrained epoch seconds (years from 1970); the SetTimeProfile segment rule (end before start rejected, equal accepted) is asserted by VerifC16_SetTimeProfileSegments. " + TRUST,
    ref="DESIGN.md section 6 C16"),
  "C17": dict(
    text="havoc-after: after construction / the call / the clone, every settable cell reachable from the caller's data or from the transport buffer is overwritten with fresh solver variables and the routing decision, arguments or results are asserted unchanged; a shared cell shows up as a satisfiable difference",
-   note="covers NewUHPPOTE + DeviceList, PutCard/SetTimeProfile/SetAddress/ActivateKeypads arguments, GetDevice/GetCardByIndex/GetListener results, Device.Clone and Card.Clone; door-name slices reachable through DeviceList are not part of the property (routing only). " + TRUST,
+   note="covers NewUHPPOTE + DeviceList, PutCard/SetTimeProfile/SetAddress/ActivateKeypads arguments, GetDevice/GetCardByIndex/GetListener results, Device.Clone and Card.Clone, the codec's batch entry points (UnmarshalArray / UnmarshalArrayElement), the replies of one discovery through the real ut0311.Broadcast (socket level), and the real ut0311.Listen receive loop: the bytes handed to a slow handler stay the same while it handles them, and a burst of two events read back to back (lazy-start schedule) is delivered as two distinct, correct statuses; door-name slices reachable through DeviceList are not part of the property (routing only). " + TRUST,
    ref="DESIGN.md section 6 C17"),
  "C18": dict(
    text="layouts are built at run time with reflect.StructOf (mapped to go/types structs by the engine): every single-field layout over 18 field kinds (8/16/32-bit integers, bool, IPv4, address:port, raw and typed MAC, serial number, PIN, version, date, date-time, system date/time, HH:mm, *Date, *HHmm) at the boundary offsets (quick) or every offset where the field fits (thorough); with symbolic field values Marshal must write exactly the field bytes and zero elsewhere, Unmarshal must return the value, no panic obligation may be feasible and havoc of the input buffer must leave the decoded value unchanged",
-   note="multi-field / embedded layouts are covered by the 65 shipped message types in C05 and a hand-written sample; value tags by the shipped messages. " + TRUST,
+   note="multi-field layouts are covered by the 65 shipped message types in C05; hand-written samples cover an embedded struct followed by further fields, fixed-value tags on byte fields (decimal and 0x forms, encode and decode side) and the batch entry points UnmarshalArray / UnmarshalArrayElement (elements independent of each other and of the buffer). " + TRUST,
    ref="DESIGN.md section 6 C18"),
 }
 
